@@ -204,6 +204,9 @@ func run(c Case) pbt.Verdict {
 		}
 	}
 	stuck := h.DrainAndStop(8 * time.Second)
+	if h.Inconclusive {
+		return pbt.Verdict{Discard: true, Classes: []string{"call-did-not-reach-the-loop-in-60s"}}
+	}
 	history := ""
 	for _, l := range log {
 		history += "\n    " + l
@@ -249,7 +252,7 @@ func run(c Case) pbt.Verdict {
 
 func TestProp(t *testing.T) {
 	pbt.Main(t, pbt.Spec{
-		ID: "C17",
+		ID:   "C17",
 		Rule: "rapid generates schedules over one agent scheduler with a harness-driven event loop: steps from {start Download (1-2 blobs), feed k correct pieces through a fake peer, apply pending event #i, apply the pending completion notice, apply the oldest pending event of a named kind, a remote peer opens a real TCP connection for a blob (its handshake and connection events become pending like any other), start RemoveTorrent, clock advance + preemption tick, start Stop}; senders block exactly as with the real unbuffered loop and the case decides the order in which pending events (including the dispatcher's asynchronous completion notice) are applied. At the end all pending events are applied, the scheduler is stopped, and every Download call must have returned: nil only with the blob byte-exact in the cache, otherwise one of {not found, timed out, removed, stopped}. non-trivial = a removal, tick, shutdown or new download is applied while a completion notice is pending, or a Download joins a torrent control that an incoming connection created; distinct by case hash",
 		Assumptions: []string{
 			"schedules are owned at event granularity (the order of serialized events and of the completion notice); interleavings inside one event application are not explored",
